@@ -225,15 +225,27 @@ def Registry.resolveName (r : Registry) (n : BList) : BList := (alookup n r.name
 def Registry.isActive (r : Registry) (a : RR) : Bool :=
   ((alookup a.getName r.active).getD []).any (a.matchesRR ·)
 
+/-- the probe after record `a` of service `svcName` came to it at `start`: a record that is not
+    matched in the probe joins it, and when the probe began before `start` its schedule starts
+    over at `start` (repair of D33: the new record must be probed three times itself) -/
+def Probe.join (p : Probe) (a : RR) (svcName : BList) (start : Nat) : Probe :=
+  if p.records.any (a.matchesRR ·) then { p with waiting := sinsert svcName p.waiting }
+  else if p.start < start then
+    { records := insertRR a p.records, waiting := sinsert svcName p.waiting, start := start, next := start }
+  else { p with records := insertRR a p.records, waiting := sinsert svcName p.waiting }
+
+/-- does `a` make the probe start over? -/
+def Probe.restarts (p : Probe) (a : RR) (start : Nat) : Bool :=
+  !p.records.any (a.matchesRR ·) && decide (p.start < start)
+
 /-- second half of `is_probing_done` (the record is not active): the probe of the record's
     name is created if need be, its `next_send` goes to `new_timers`, the record joins the
-    probe unless a matching one is there, the service waits for the probe -/
+    probe unless a matching one is there, the service waits for the probe.  When the probe
+    starts over, the new start goes to `new_timers` too. -/
 def Registry.probeInsert (r : Registry) (a : RR) (svcName : BList) (start : Nat) : Registry :=
   let p := (alookup a.getName r.probing).getD (Probe.new start)
-  let p' : Probe :=
-    if p.records.any (a.matchesRR ·) then { p with waiting := sinsert svcName p.waiting }
-    else { p with records := insertRR a p.records, waiting := sinsert svcName p.waiting }
-  { r with probing := aset a.getName p' r.probing, newTimers := r.newTimers ++ [p.next] }
+  { r with probing := aset a.getName (p.join a svcName start) r.probing,
+           newTimers := r.newTimers ++ p.next :: (if p.restarts a start then [start] else []) }
 
 /-- `is_probing_done`, state part -/
 def Registry.probingDoneReg (r : Registry) (a : RR) (svcName : BList) (start : Nat) : Registry :=
@@ -574,6 +586,12 @@ def probeSends (i : MyIntf) (pr : Probing) : List Out :=
     (if i.hasFamily true then [Out.send i.index true none { flags := 0, questions := pr.questions, authorities := pr.authorities }] else []) ++
     (if i.hasFamily false then [Out.send i.index false none { flags := 0, questions := pr.questions, authorities := pr.authorities }] else [])
 
+/-- the end of the body of `probing_handler` for one interface: the `new_timers` of its registry
+    - probes created or started over by a re-announcement or by the wake-ups - are armed -/
+def drainNewTimers (idx : Nat) (acc : State × List Out) : State × List Out :=
+  ({ (acc.1.setRegistry idx { (acc.1.registry idx) with newTimers := [] }) with
+       timers := acc.1.timers ++ (acc.1.registry idx).newTimers }, acc.2)
+
 /-- the body of `probing_handler` for one interface -/
 def probingOnIntf (now jitter : Nat) (acc : State × List Out) (i : MyIntf) : State × List Out :=
   let s := acc.1
@@ -584,7 +602,7 @@ def probingOnIntf (now jitter : Nat) (acc : State × List Out) (i : MyIntf) : St
     let ex := handleExpiredProbes pr.expired i.name pr.reg
     let s1 : State := { (s.setRegistry i.index ex.1) with timers := s.timers ++ pr.timers }
     let outs := acc.2 ++ probeSends i pr ++ ex.2.1.flatMap (notify s)
-    ex.2.2.foldl (wakeService now jitter i) (s1, outs)
+    drainNewTimers i.index (ex.2.2.foldl (wakeService now jitter i) (s1, outs))
 
 /-- `probing_handler` -/
 def probingHandler (s : State) (now jitter : Nat) : State × List Out :=
@@ -689,6 +707,20 @@ def tiebreak (now : Nat) (auths : List Wire.Rec) (reg : Registry) (q : Wire.Ques
         | .lt => { reg with probing := aset q.name { p with start := now + 1000, next := now + 1000 } reg.probing }
         | _ => reg
 
+/-- `probe.next_send != next_send` around the call of `tiebreaking`: was the probe postponed? -/
+def postponedTo (now : Nat) (auths : List Wire.Rec) (reg : Registry) (q : Wire.Question) : Option Nat :=
+  match alookup q.name reg.probing, alookup q.name (tiebreak now auths reg q).probing with
+  | some p, some p' => if p'.next != p.next then some p'.next else none
+  | _, _ => none
+
+/-- the timers `handle_query` arms while it walks the questions: one for every probe that a
+    lost tiebreak postponed (repair of D34) -/
+def tiebreakTimers (now : Nat) (auths : List Wire.Rec) : Registry → List Wire.Question → List Nat
+  | _, [] => []
+  | reg, q :: qs =>
+    (match postponedTo now auths reg q with | some t => [t] | none => []) ++
+      tiebreakTimers now auths (tiebreak now auths reg q) qs
+
 def clearFlush (r : RR) : RR := { r with flush := false }
 
 /-- the response packet of `handle_query`; legacy unicast echoes the id and the questions
@@ -706,7 +738,8 @@ def handleQuery (s : State) (now : Nat) (p : RxPkt) (i : MyIntf) : State × List
   | some reg =>
     let resp := p.msg.questions.foldl (answerQuestion p.msg.answers s.services i reg p.srcV4) {}
     let reg' := p.msg.questions.foldl (tiebreak now p.msg.authorities) reg
-    let s' := s.setRegistry p.ifIdx reg'
+    let s' : State := { (s.setRegistry p.ifIdx reg') with
+      timers := s.timers ++ tiebreakTimers now p.msg.authorities reg p.msg.questions }
     if resp.answers.isEmpty then (s', [])
     else
       (s',
